@@ -1,4 +1,254 @@
-import TakVerif.Spec.Tak
+import TakVerif.Proofs.EngineLegalSet
+
+/-! # C03 — the move generator lists every legal move exactly once, none off the board
+
+Objects: `Tak.Pos.allMoves` mirrors `Position.AllMoves` and `Tak.slidesTable` mirrors the `slides` table
+built by `init`/`calculateSlides` (`tak/move.go`), both tied to the Go code by `./check C03` on every run.
+`Spec.step` is the rule book over plain lists, `Spec.abs` the list-level view of a bit-level position,
+`Spec.decode` the reading of a raw `Move` value, `Spec.compositions` the enumeration of drop lists from
+first principles (`Spec/Shapes.lean`).  All theorems are for **every** position / word / move in the stated
+domain; nothing below is proved by sampling.  (`decide` appears only in the `example`s.) -/
 namespace C03
-theorem placeholder : True := trivial
+open Tak Spec Tak.Proofs
+
+/-! ## 1. the `slides` table -/
+
+/-- `Spec.compositions h` = the non-empty lists of positive numbers with sum ≤ h … -/
+theorem compositions_spec (h : Nat) (l : List Nat) :
+    l ∈ compositions h ↔ l ≠ [] ∧ (∀ d ∈ l, 1 ≤ d) ∧ l.sum ≤ h := mem_compositions h l
+
+/-- … each listed once. -/
+theorem compositions_nodup (h : Nat) : (compositions h).Nodup := Tak.Proofs.compositions_nodup h
+
+/-- Row `h` of the engine's table is, entry by entry and in order, `MkSlides` of the compositions of at most `h`
+(structural proof over the recursion of `calculateSlides`, not an evaluation of the table). -/
+theorem slides_row (h : Nat) (hh : h ≤ 8) :
+    slidesTable.getD h [] = (compositions h).map encodeDrops := slidesTable_row h hh
+
+/-- **slides_table**: a 32-bit word is in `slides[h]` iff the iterator reads a non-empty drop list from it,
+every drop is in 1..8, the drops sum to at most `h`, and the word is exactly the packing of that list
+(the last conjunct holds for every word, see `encode_elems`; it is kept to make the statement self-contained). -/
+theorem slides_table (h : Nat) (_h1 : 1 ≤ h) (h8 : h ≤ 8) (s : BitVec 32) :
+    s ∈ slidesTable.getD h [] ↔
+      (Slides.elems s ≠ [] ∧ (∀ d ∈ Slides.elems s, 1 ≤ d ∧ d ≤ 8) ∧ (Slides.elems s).sum ≤ h ∧
+        s = encodeDrops (Slides.elems s)) := Tak.Proofs.slides_table h h8 s
+
+/-- no word twice in a row of the table -/
+theorem slides_nodup (h : Nat) (h8 : h ≤ 8) : (slidesTable.getD h []).Nodup := Tak.Proofs.slides_nodup h h8
+
+/-- `Slides.Prepend` conses onto what the iterator yields -/
+theorem elems_prepend (s : BitVec 32) (i : Nat) (h1 : 1 ≤ i) (hi : i ≤ 15) (hs : s.toNat < 2^28) :
+    Slides.elems (Slides.prepend s i) = i :: Slides.elems s := Tak.Proofs.elems_prepend s i h1 hi hs
+
+/-- every word is the packing of what its iterator yields (so `Move.Equal` on slides compares drop lists) -/
+theorem encode_elems (s : BitVec 32) : encodeDrops (Slides.elems s) = s := Tak.Proofs.encode_elems s
+
+/-- the iterator reads back any list of at most 8 drops in 1..15 -/
+theorem elems_encode (l : List Nat) (hl : l.length ≤ 8) (hd : ∀ d ∈ l, 1 ≤ d ∧ d ≤ 15) :
+    Slides.elems (encodeDrops l) = l := Tak.Proofs.elems_encode l hl hd
+
+example : (0x121#32) ∈ slidesTable.getD 4 [] :=
+  (slides_table 4 (by decide) (by decide) _).2 (by decide)
+example : (0x121#32) ∉ slidesTable.getD 3 [] :=
+  fun h => absurd ((slides_table 3 (by decide) (by decide) _).1 h).2.2.1 (by decide)
+example : (0x101#32) ∉ slidesTable.getD 8 [] :=   -- interior zero nibble
+  fun h => absurd (((slides_table 8 (by decide) (by decide) _).1 h).2.1 0 (by decide)).1 (by decide)
+example : (slidesTable.getD 8 []).length = 255 := by decide +kernel
+example : Slides.elems (Slides.prepend 0x21#32 3) = [3, 1, 2] := by decide
+
+/-! ## 2. the edge mask -/
+
+/-- **mask test**: for a table entry, `s & ^((1 << 4c) - 1) == 0` iff the slide has at most `c` drops -/
+theorem mask_test (h : Nat) (h8 : h ≤ 8) (s : BitVec 32) (hs : s ∈ slidesTable.getD h []) (c : Nat) (hc : c ≤ 8) :
+    s &&& ~~~((1#32 <<< (4*c)) - 1#32) = 0#32 ↔ (Slides.elems s).length ≤ c :=
+  Tak.Proofs.mask_test h h8 s hs c hc
+
+/-- for arbitrary words the mask tests the magnitude -/
+theorem mask_test_toNat (s : BitVec 32) (c : Nat) (hc : c ≤ 8) :
+    s &&& ~~~((1#32 <<< (4*c)) - 1#32) = 0#32 ↔ s.toNat < 2^(4*c) := Tak.Proofs.mask_test_toNat s c hc
+
+example : (0x121#32) &&& ~~~((1#32 <<< (4*3)) - 1#32) = 0#32 ∧ (0x121#32) &&& ~~~((1#32 <<< (4*2)) - 1#32) ≠ 0#32 := by decide
+
+/-! ## 3. the generated list: on the board, no repetition -/
+
+/-- `AllMoves` as a comprehension: per square the placements, nothing, or the masked table rows -/
+theorem allMoves_eq (p : Pos) :
+    p.allMoves = (List.range p.cfg.size).flatMap (fun x => (List.range p.cfg.size).flatMap (fun y => sqMoves p x y)) :=
+  Tak.Proofs.allMoves_eq p
+
+/-- **allMoves_onboard**: every generated move starts on the board, has a placement or slide type code, and
+`Move.Dest` (no `int8` wrap-around, no "bad type" panic) is on the board.  Needs nothing but size ≤ 8
+(array lengths are irrelevant: an out-of-range `Height` read is `0` in the model and a panic in Go). -/
+theorem allMoves_onboard (p : Pos) (_h3 : 3 ≤ p.cfg.size) (h8 : p.cfg.size ≤ 8) (m : Tak.Move) (hm : m ∈ p.allMoves) :
+    0 ≤ m.x ∧ m.x < p.cfg.size ∧ 0 ≤ m.y ∧ m.y < p.cfg.size ∧
+    (m.type = Facts.mtPlaceFlat ∨ m.type = Facts.mtPlaceStanding ∨ m.type = Facts.mtPlaceCapstone ∨
+     m.type = Facts.mtSlideLeft ∨ m.type = Facts.mtSlideRight ∨ m.type = Facts.mtSlideUp ∨ m.type = Facts.mtSlideDown) ∧
+    ∃ dx dy : Int, m.dest = some (dx, dy) ∧ 0 ≤ dx ∧ dx < p.cfg.size ∧ 0 ≤ dy ∧ dy < p.cfg.size :=
+  allMoves_onboard' p h8 m hm
+
+/-- **allMoves_nodup**: no move value occurs twice … -/
+theorem allMoves_nodup (p : Pos) (h8 : p.cfg.size ≤ 8) : p.allMoves.Nodup := allMoves_nodup' p h8
+
+/-- … and no two entries are `Move.Equal` -/
+theorem allMoves_no_two_equal (p : Pos) (h8 : p.cfg.size ≤ 8) :
+    p.allMoves.Pairwise (fun a b => a.equal b = false) := allMoves_pairwise_not_equal p h8
+
+/-! ## 4. completeness and the legal move set -/
+
+/-- what `WFlite` says (the only facts about the position that completeness uses; both are conjuncts of the
+position invariant `WF` of DESIGN §3, and hold of `Pos.new`, see `wflite_new`) -/
+theorem wflite_iff (p : Pos) :
+    WFlite p ↔ 3 ≤ p.cfg.size ∧ p.cfg.size ≤ 8 ∧
+      ∀ i, i < p.cfg.size * p.cfg.size →
+        (p.height.getD i 0 = 0#8 ↔ (p.white.getLsbD i = false ∧ p.black.getLsbD i = false)) :=
+  ⟨fun h => ⟨h.1, h.2, h.3⟩, fun h => ⟨h.1, h.2.1, h.2.2⟩⟩
+
+/-- the same, read at list level: `Height[i] == 0` exactly where the square of `abs p` is empty -/
+theorem wflite_iff_abs (p : Pos) :
+    WFlite p ↔ 3 ≤ p.cfg.size ∧ p.cfg.size ≤ 8 ∧
+      ∀ i, i < p.cfg.size * p.cfg.size → (p.height.getD i 0 = 0#8 ↔ (abs p).squares.getD i [] = []) := by
+  rw [wflite_iff]
+  have key : ∀ i, i < p.cfg.size * p.cfg.size → (abs p).squares.getD i [] = p.squareAt i := by
+    intro i hi; simp [abs, List.getD, hi]
+  constructor
+  · rintro ⟨a, b, c⟩
+    refine ⟨a, b, fun i hi => ?_⟩
+    rw [key i hi, squareAt_nil_iff]; exact c i hi
+  · rintro ⟨a, b, c⟩
+    refine ⟨a, b, fun i hi => ?_⟩
+    rw [← squareAt_nil_iff, ← key i hi]; exact c i hi
+
+theorem wflite_new (cfg : Cfg) (p : Pos) (h : Pos.new cfg = .ok p) : WFlite p := by
+  unfold Pos.new at h
+  split at h
+  · cases h
+  simp only [] at h
+  split at h
+  · cases h
+  rename_i hs
+  injection h with h
+  subst h
+  refine ⟨by simp; omega, by simp; omega, ?_⟩
+  intro i hi
+  simp at hi
+  simp [Array.getD, hi]
+
+/-- **allMoves_complete**: every non-pass raw move (any `int8` coordinates, any type byte, any 32-bit slide word)
+that the rule book accepts on `abs p` is `Move.Equal` to a generated move.
+Together with C01 (`Pos.apply` succeeds exactly when `Spec.step` does) this is "every non-pass move the engine is
+willing to apply is one of the generated moves". -/
+theorem allMoves_complete (p : Pos) (wf : WFlite p) (m : Tak.Move) (hnp : m.type ≠ Facts.mtPass)
+    (hl : Spec.step (abs p) (decode m) ≠ none) : ∃ m' ∈ p.allMoves, m'.equal m = true :=
+  allMoves_complete' p wf m hnp hl
+
+/-- **allMoves_complete_engine**: the same against the engine itself — every non-pass raw move that `Pos.apply`
+(the statement-for-statement model of `Position.MovePreallocated`, tied to Go by C01's and this property's
+correspondence) applies successfully is `Move.Equal` to a generated move.  Proved directly from the acceptance
+tests of `Pos.apply` (type dispatch, opening rule, bounds check, occupancy, reserve bytes, carry limits, owner
+bit, the per-step bounds check of the drop loop); it does not use the rule book or C01. -/
+theorem allMoves_complete_engine (basis : Array W) (p : Pos) (wf : WFlite p) (m : Tak.Move) (q : Pos)
+    (hnp : m.type ≠ Facts.mtPass) (h : p.apply basis m = .ok q) : ∃ m' ∈ p.allMoves, m'.equal m = true :=
+  allMoves_complete_apply' basis p wf m q hnp h
+
+/-- **allMoves_sound_shape**: a generated placement is on a `Height == 0` square with slide word 0, a wall/capstone
+only from ply 2, a capstone only while the mover's capstone byte is non-zero; a generated slide comes after the
+opening from a stack whose mover bit is set, its drops are all ≥ 1, non-empty, and sum to at most
+min(height, size) (and by `allMoves_onboard` it stays on the board).  What is *not* decided by the generator —
+walls and capstones in the path — is what the legality filter removes. -/
+theorem allMoves_sound_shape (p : Pos) (h8 : p.cfg.size ≤ 8) (m : Tak.Move) (hm : m ∈ p.allMoves) :
+    (m.isSlide = false ∧
+      p.height.getD (m.y.toNat * p.cfg.size + m.x.toNat) 0 = 0#8 ∧ m.slides = 0#32 ∧
+      (m.type ≠ Facts.mtPlaceFlat → p.move ≥ 2) ∧ (m.type = Facts.mtPlaceCapstone → capFlag p = true)) ∨
+    (m.isSlide = true ∧
+      p.move ≥ 2 ∧ Slides.elems m.slides ≠ [] ∧ (∀ d ∈ Slides.elems m.slides, 1 ≤ d) ∧
+      (Slides.elems m.slides).sum ≤ (p.height.getD (m.y.toNat * p.cfg.size + m.x.toNat) 0).toNat ∧
+      (Slides.elems m.slides).sum ≤ p.cfg.size ∧
+      (p.toMove = .white → p.white.getLsbD (m.y.toNat * p.cfg.size + m.x.toNat) = true) ∧
+      (p.toMove = .black → p.black.getLsbD (m.y.toNat * p.cfg.size + m.x.toNat) = true)) :=
+  allMoves_sound_shape' p h8 m hm
+
+/-- **legal_filter_eq**: with `legal p m := (Spec.step (abs p) (decode m)).isSome`, the list
+`p.allMoves.filter (legal p)` that search, solvers and random play iterate over
+(a) contains for every legal non-pass raw move exactly one entry `Equal` to it,
+(b) contains only legal, non-pass, on-board moves,
+(c) has no repeated value and no two `Equal` entries. -/
+theorem legal_filter_eq (p : Pos) (wf : WFlite p) :
+    (∀ m, m.type ≠ Facts.mtPass → legal p m = true →
+        ∃ m', (m' ∈ p.allMoves.filter (legal p) ∧ m'.equal m = true) ∧
+          ∀ m'', m'' ∈ p.allMoves.filter (legal p) → m''.equal m = true → m'' = m') ∧
+    (∀ m' ∈ p.allMoves.filter (legal p), legal p m' = true ∧ m'.type ≠ Facts.mtPass ∧ OnBoard p.cfg.size m') ∧
+    (p.allMoves.filter (legal p)).Nodup ∧
+    (p.allMoves.filter (legal p)).Pairwise (fun a b => a.equal b = false) := legal_filter_eq' p wf
+
+/-- **engine_filter_eq**: the same for the engine's own notion of legality, `accepted basis p m := (p.apply basis m).toBool`
+("`Position.Move` returns no error"): `AllMoves` filtered by `Move` — the list `search`, the solvers and random play
+iterate over — has exactly one entry `Equal` to each non-pass move the engine applies, only on-board non-pass moves,
+no repetition.  Uses that `MovePreallocated` never reads the slide word of a non-slide (`apply_congr_nonslide`). -/
+theorem engine_filter_eq (basis : Array W) (p : Pos) (wf : WFlite p) :
+    (∀ m, m.type ≠ Facts.mtPass → accepted basis p m = true →
+        ∃ m', (m' ∈ p.allMoves.filter (accepted basis p) ∧ m'.equal m = true) ∧
+          ∀ m'', m'' ∈ p.allMoves.filter (accepted basis p) → m''.equal m = true → m'' = m') ∧
+    (∀ m' ∈ p.allMoves.filter (accepted basis p),
+        accepted basis p m' = true ∧ m'.type ≠ Facts.mtPass ∧ OnBoard p.cfg.size m') ∧
+    (p.allMoves.filter (accepted basis p)).Nodup ∧
+    (p.allMoves.filter (accepted basis p)).Pairwise (fun a b => a.equal b = false) := engine_filter_eq' basis p wf
+
+/-- **legalMoves_perm**: the filtered generator list is a permutation of `Spec.legalMoves (abs p)` — the list the
+correspondence check compares, on every sampled position, with Go's `AllMoves` filtered by `Move`. -/
+theorem legalMoves_perm (p : Pos) (wf : WFlite p) :
+    (p.allMoves.filter (legal p)).Perm (Spec.legalMoves (abs p)) := legalMoves_perm' p wf
+
+/-- the rule-book enumeration does not depend on the engine's table: built from `Spec.compositions` it is the same list -/
+theorem legalMoves_table_free (s : State) : legalMovesC s = legalMoves s := legalMovesC_eq s
+
+/-! ### non-vacuity -/
+
+/-- 3×3, ply 2 (white to move): a white flat on a1, a black flat on b1 -/
+def exPos : Pos :=
+  { cfg := ⟨3, 10, 0, false⟩, c := Gen.precompute 3
+    whiteStones := 9#8, whiteCaps := 0#8, blackStones := 9#8, blackCaps := 0#8
+    move := 2, white := 1#64, black := 2#64, standing := 0#64, caps := 0#64
+    height := #[1#8, 1#8, 0#8, 0#8, 0#8, 0#8, 0#8, 0#8, 0#8]
+    stacks := Array.replicate 9 0#64, wgroups := [], bgroups := [], hash := 0#64 }
+
+theorem exPos_wf : WFlite exPos := ⟨by decide, by decide, by decide⟩
+
+/-- 5×5, ply 11 (black to move): a black capstone on a stack of 7 in the corner a1 (taller than the carry limit 5),
+a white wall on c1, a black flat on a3; black has no capstone left -/
+def exPos2 : Pos :=
+  { cfg := ⟨5, 21, 1, false⟩, c := Gen.precompute 5
+    whiteStones := 15#8, whiteCaps := 1#8, blackStones := 17#8, blackCaps := 0#8
+    move := 11, white := 4#64, black := 1025#64, standing := 4#64, caps := 1#64
+    height := #[7#8, 0#8, 1#8, 0#8, 0#8, 0#8, 0#8, 0#8, 0#8, 0#8, 1#8, 0#8, 0#8, 0#8, 0#8,
+                0#8, 0#8, 0#8, 0#8, 0#8, 0#8, 0#8, 0#8, 0#8, 0#8]
+    stacks := (Array.replicate 25 0#64).set! 0 0b101010#64, wgroups := [], bgroups := [], hash := 0#64 }
+
+theorem exPos2_wf : WFlite exPos2 := ⟨by decide, by decide, by decide⟩
+
+-- a legal slide given with an out-of-list representation is found in the list
+example : ∃ m' ∈ exPos.allMoves, m'.equal ⟨0, 0, Facts.mtSlideRight, 1#32⟩ = true :=
+  allMoves_complete exPos exPos_wf _ (by decide) (by decide)
+-- the engine applies that slide (and a 5-piece carry off the tall corner stack): hypotheses of `allMoves_complete_engine`
+example : (exPos.apply (Array.replicate 64 0#64) ⟨0, 0, Facts.mtSlideRight, 1#32⟩).toBool = true := by decide +kernel
+example : (exPos2.apply (Array.replicate 64 0#64) ⟨0, 0, Facts.mtSlideUp, 0x1112#32⟩).toBool = true := by decide +kernel
+-- a legal placement written with a junk slide word is `Equal` to a listed one
+example : ∃ m' ∈ exPos.allMoves, m'.equal ⟨2, 2, Facts.mtPlaceStanding, 0xdead#32⟩ = true :=
+  allMoves_complete exPos exPos_wf _ (by decide) (by decide)
+-- the tall corner stack (7 high, carry limit 5): carrying 5 up the a-file as 2+1+1+1 is legal … and listed
+example : legal exPos2 ⟨0, 0, Facts.mtSlideUp, 0x1112#32⟩ = true := by decide
+example : (⟨0, 0, Facts.mtSlideUp, 0x1112#32⟩ : Tak.Move) ∈ exPos2.allMoves := by decide +kernel
+-- the capstone alone may flatten the wall two squares to the right only at the end: 1 then 1 is legal, 2 is not
+example : legal exPos2 ⟨0, 0, Facts.mtSlideRight, 0x11#32⟩ = true ∧ legal exPos2 ⟨0, 0, Facts.mtSlideRight, 0x21#32⟩ = false := by decide
+example : accepted (Array.replicate 64 0#64) exPos2 ⟨4, 4, Facts.mtPlaceFlat, 0x77#32⟩ = true := by decide +kernel
+example : exPos.allMoves.length = 16 ∧ (exPos.allMoves.filter (legal exPos)).length = 16 := by decide
+example : exPos2.allMoves.length = 107 ∧ (exPos2.allMoves.filter (legal exPos2)).length = 86 := by decide +kernel
+example : (⟨0, 0, Facts.mtSlideRight, 1#32⟩ : Tak.Move) ∈ exPos.allMoves := by decide
+-- the hypotheses of the list-level theorems are met by these positions
+example : exPos2.allMoves.Nodup := allMoves_nodup exPos2 (by decide)
+example : ∃ dx dy : Int, (⟨0, 0, Facts.mtSlideUp, 0x1112#32⟩ : Tak.Move).dest = some (dx, dy) ∧ 0 ≤ dx ∧ dx < 5 ∧ 0 ≤ dy ∧ dy < 5 :=
+  (allMoves_onboard exPos2 (by decide) (by decide) _ (by decide +kernel)).2.2.2.2.2
+example : (exPos2.allMoves.filter (legal exPos2)).Perm (Spec.legalMoves (abs exPos2)) := legalMoves_perm exPos2 exPos2_wf
+example : (exPos2.allMoves.filter (legal exPos2)).Nodup := (legal_filter_eq exPos2 exPos2_wf).2.2.1
+example : ∃ p, Pos.new ⟨5, 0, 0, false⟩ = .ok p ∧ p.allMoves.length = 25 := ⟨_, rfl, by decide⟩
+
 end C03
